@@ -352,6 +352,13 @@ def programs(tier, rng, style=0):
                 mapped_over_keys(['p', 'q'], leaf(), optional=rng.random() < 0.5), generic_box(leaf()), generic_nested(STRING, NUMBER), generic_nested(lit('a'), union(NUMBER, TNULL)),
                 arr(u), tup([leaf(), u], rest=leaf() if rng.random() < 0.5 else None), union(u, arr(leaf()), leaf()),
                 obj({'k': (lit('x'), False), 'v': (u, False)}), obj({'n': (u, True)}, index=None)]
+    # a discriminated union whose variants are intersections of named types that re-declare a NON-literal property more narrowly
+    wb = alias(obj({'t': (union(lit('a'), lit('b')), False), 'v': (union(NUMBER, STRING), False)}))
+    wn, ws = alias(obj({'t': (lit('a'), False), 'v': (NUMBER, False)})), alias(obj({'t': (lit('b'), False), 'v': (STRING, False)}))
+    out += [union(inter(wb, wn), inter(wb, ws)), union(inter(wn, wb), inter(ws, wb)),
+            union(inter(wb, alias(obj({'t': (lit('a'), False), 'w': (arr(NUMBER), True)}))), inter(wb, alias(obj({'t': (lit('b'), False), 'v': (lit('x'), False)}))))]
+    out += [inter(obj({'name': (STRING, False)}), alias(union(obj({'email': (STRING, False)}), obj({'phone': (NUMBER, False)})))),
+            union(obj({'status': (lit('draft'), True), 'title': (STRING, False)}), obj({'status': (lit('published'), False), 'n': (NUMBER, False)}))]
     lu = alias(union(lit('a'), lit('b'), lit(1), lit(2)))
     out += [exclude_lits(lu, ['a']), exclude_lits(lu, ['a', 1]), exclude_lits(lu, ['a', 'b', 1, 2]), enum_str(['x', 'y']), enum_str(['only']), const_typeof({'a': 1, 'b': 'x'}),
             tpl('id_'), tpl('', '_end'), tpl('a', 'z'), tpl_lits(['x', 'y'], '_id'), tpl('a|b_'), tpl('x.y*', '+(z)'), tpl('[q]{1}^$', '?'), tpl_lits(['a|b', 'c'], '--'),
